@@ -68,6 +68,13 @@ theorem call_history_independent (A : Arith K) (h : List (Op K)) (op : Op K) :
     result A (after A h) op = result A (new A) op := by
   rw [(call_reach A _ (reach_after A h) op).1, (call_reach A _ (reach_new A) op).1]
 
+/-- **History independence for every way of obtaining the object.** An object built by `FFT::new()`, by
+    `FFT::default()`, by `.clone()` of any object, or by any calls on any of these (arbitrarily nested: clone of a
+    used object, calls on the clone, …) answers every call exactly like a brand-new `FFT::new()`. -/
+theorem built_object_independent (A : Arith K) (b : Build K) (op : Op K) :
+    result A (b.state A) op = result A (new A) op := by
+  rw [(call_reach A _ (reach_build A b) op).1, (call_reach A _ (reach_new A) op).1]
+
 /-- The "reused object versus fresh object" clause for `multiply`. -/
 theorem multiply_history_independent (A : Arith K) (h : List (Op K)) (a b : Array Int) :
     (multiply A (after A h) a b).2 = (multiply A (new A) a b).2 := by
@@ -257,6 +264,10 @@ example : (new junk).rev.size = 4 := by rw [new_eq]; simp [canonState]
 example : (multiply junk (after junk [.updateN 16, .multiply #[1, 2, 3] #[4, 5]]) #[1, -2] #[3]).2
     = (multiply junk (new junk) #[1, -2] #[3]).2 :=
   multiply_history_independent junk _ _ _
+
+example : result junk ((Build.call (.clone (.call .default (.updateN 16))) (.multiply #[1] #[2, 3])).state junk) (.multiply #[3] #[4, 5])
+    = result junk (new junk) (.multiply #[3] #[4, 5]) :=
+  built_object_independent junk _ _
 
 example : (multiply junk (new junk) #[1, -2, 5] #[3, 4]).2.length = 4 :=
   multiply_len junk _ _ _ (by decide) (by decide)
